@@ -319,6 +319,20 @@ def scalar_reader_domain_rows(prims):
             if cv is UNKNOWN:
                 # the conversion is not in the vocabulary: decide on the guards alone
                 pass
+            # explicit range tests on the wire value that precede the conversion
+            rejected_by_guard = False
+            for g in d.get("range_guards") or []:
+                try:
+                    gv = eval_value_term(g.get("cond"), x)
+                except TermRaised:
+                    gv = UNKNOWN
+                if gv is UNKNOWN:
+                    unknown = (x, g.get("cond"))
+                elif bool(gv) != bool(g.get("holds")):
+                    rejected_by_guard = True
+            if rejected_by_guard:
+                bad.append(x)
+                continue
             accepted = False
             for conds in paths:
                 ok = True
